@@ -20,6 +20,11 @@ pub struct TextCase {
     pub base: ParseCase,
     /// raw input texts in addition to the token-level inputs of `base`
     pub texts: Vec<String>,
+    /// Some(phase): the grammar gets a terminal `skp` that is listed in the scanner state's `%skip`
+    /// list and used by no production; every third gap (starting at `phase`) of the token-level
+    /// inputs gets one
+    #[serde(default)]
+    pub skip: Option<u8>,
 }
 
 fn mixed_strategy(tier: Tier, n_inputs: usize, with_texts: bool) -> BoxedStrategy<TextCase> {
@@ -41,7 +46,7 @@ fn mixed_strategy(tier: Tier, n_inputs: usize, with_texts: bool) -> BoxedStrateg
         } else {
             Just(vec![]).boxed()
         };
-        (parse_case_strategy(p, lr, n_inputs), texts).prop_map(|(base, texts)| TextCase { base, texts })
+        (parse_case_strategy(p, lr, n_inputs), texts, any::<u8>()).prop_map(move |(base, texts, b)| TextCase { base, texts, skip: if with_texts && b % 4 == 3 { Some(b / 4 % 3) } else { None } })
     };
     proptest::strategy::Union::new(vec![mk(false).boxed(), mk(true).boxed()]).boxed()
 }
@@ -54,7 +59,7 @@ impl Check for C19 {
         "C19"
     }
     fn rule(&self) -> String {
-        "case = random ll(k) or lalr(1) grammar (conflict-resolved LALR tables included) x inputs: 8 token-level inputs (sentences, mutants with foreign tokens, random strings), a long repetition of a sentence (about 1500 tokens), 4 raw texts (random Unicode, random bytes rendered lossily, random text over the grammar's characters), each parsed with recovery on and off (LL); oracle: the parser returns Ok or Err without panic (debug assertions and overflow checks on); termination is decided by deterministic work counters (tree-builder and semantic-action calls are bounded by 64 x (tokens + 1) x (productions + 1) + 2000; hitting the bound is a violation), with recovery the reported syntax errors are at most 101. Evaluations = parser runs. Non-trivial = rejected input on which recovery reported >= 2 errors, or input of >= 500 tokens; distinct by (grammar, input)".into()
+        "case = random ll(k) or lalr(1) grammar (conflict-resolved LALR tables included; a quarter with a terminal in the scanner state's %skip list that occurs in the inputs' gaps) x inputs: 8 token-level inputs (sentences, mutants with foreign tokens, random strings), a long repetition of a sentence (about 1500 tokens), 4 raw texts (random Unicode, random bytes rendered lossily, random text over the grammar's characters), each parsed with recovery on and off (LL); oracle: the parser returns Ok or Err without panic (debug assertions and overflow checks on); termination is decided by deterministic work counters (tree-builder and semantic-action calls are bounded by 64 x (tokens + 1) x (productions + 1) + 2000; hitting the bound is a violation), with recovery the reported syntax errors are at most 101. Evaluations = parser runs. Non-trivial = rejected input on which recovery reported >= 2 errors, or input of >= 500 tokens; distinct by (grammar, input)".into()
     }
     fn strategy(&self, tier: Tier) -> BoxedStrategy<TextCase> {
         mixed_strategy(tier, 8, true)
@@ -63,7 +68,20 @@ impl Check for C19 {
         tier.pick(3000, 60000)
     }
     fn run(&self, case: &TextCase, st: &mut Stats) -> Verdict {
-        let g = &case.base.grammar;
+        let g0;
+        let g = match case.skip {
+            Some(_) => {
+                let mut g = case.base.grammar.clone();
+                g.prods.push(Prod { lhs: "Sk".into(), alts: vec![vec![Factor::t("skp")]] });
+                g.initial.skip.push("Sk".into());
+                g0 = g;
+                &g0
+            }
+            None => &case.base.grammar,
+        };
+        if case.skip.is_some() {
+            st.class("grammar_with_skip_list");
+        }
         let opts = Opts { max_k: case.base.max_k, ..Opts::default() };
         let r = match prepare(g, &opts) {
             Prep::Ready(r) => r,
@@ -76,6 +94,25 @@ impl Check for C19 {
         let comments = !g.initial.line_comments.is_empty();
         let n_prods = r.built.gc.cfg.pr.len();
         let mut inputs: Vec<String> = case.base.inputs.iter().map(|i| i.render(&r.ig.terms, comments)).collect();
+        if let Some(phase) = case.skip {
+            for text in inputs.iter_mut() {
+                let mut out = String::new();
+                let mut n = 0u8;
+                for ch in text.chars() {
+                    out.push(ch);
+                    if ch == ' ' {
+                        if n % 3 == phase {
+                            out.push_str("skp ");
+                        }
+                        n = n.wrapping_add(1);
+                    }
+                }
+                if phase == 1 {
+                    out.push_str(" skp");
+                }
+                *text = out;
+            }
+        }
         // a long input: the first sentence repeated (a sentence again for list-like grammars, an
         // erroneous input otherwise)
         if let Some(first) = inputs.first().cloned() {
@@ -261,7 +298,7 @@ impl Check for C21 {
         let ann = |lr: bool| {
             let mut p = if lr { GenParams::lr() } else { GenParams::ll() };
             p.max_t = 3;
-            super::gen_props::annotated(p, lr).prop_map(|c| TextCase { base: ParseCase { grammar: c.grammar, max_k: 3, inputs: vec![] }, texts: vec![] })
+            super::gen_props::annotated(p, lr).prop_map(|c| TextCase { base: ParseCase { grammar: c.grammar, max_k: 3, inputs: vec![] }, texts: vec![], skip: None })
         };
         proptest::strategy::Union::new(vec![mixed_strategy(tier, 0, false), ann(false).boxed(), ann(true).boxed()]).boxed()
     }
